@@ -364,6 +364,11 @@ def run(res):
     rows_out, rc, err = vlib.run_lines([str(h)], ["row " + n for n in names])
     rows = {n: r.split()[1:] for n, r in zip(names, rows_out) if r.startswith("row ") and r != "row none"}
 
+    # instruction ids the model refers to by number (Model/X86Front.lean: Row.ctx isLea, emitInst erSaeBan)
+    for nm, want in (("lea", 375), ("vcvtsi2sd", 882), ("vcvtusi2sd", 915), ("vcmpsd", 832), ("vcmpss", 834)):
+        idr, _, _ = vlib.run_lines([str(h)], ["row " + nm])
+        if idr and idr[0].startswith("row ") and idr[0] != "row none" and int(idr[0].split()[1]) != want:
+            broken.append("instruction id of %s is %s, the model assumes %d (Model/X86Front.lean)" % (nm, idr[0].split()[1], want))
     chk, cidx, enc, eidx = [], [], [], []
     state_bad = []
     for i, (e, o) in enumerate(zip(emits, impl)):
